@@ -50,6 +50,28 @@ Theorem C18_diagonal_correlation_core : forall v, cov v v == pvar v.
 Proof. exact diag_corr_core. Qed.
 Print Assumptions C18_diagonal_correlation_core.
 
+(* tables are square over the rankings, cell (i, j) compares ranking i with ranking j, and the covariance and
+   distance tables are symmetric *)
+Theorem C18_tables_are_square : forall (A : Type) (f : list Q -> list Q -> A) cs,
+  length (cmp_table f cs) = length cs /\ forall row, In row (cmp_table f cs) -> length row = length cs.
+Proof. exact @cmp_table_square. Qed.
+Print Assumptions C18_tables_are_square.
+
+Theorem C18_table_cell : forall (A : Type) (f : list Q -> list Q -> A) cs i j d,
+  (i < length cs)%nat -> (j < length cs)%nat ->
+  nth j (nth i (cmp_table f cs) []) d = f (nth i cs []) (nth j cs []).
+Proof. exact @cmp_table_cell. Qed.
+Print Assumptions C18_table_cell.
+
+Theorem C18_covariance_and_distance_tables_symmetric : forall cs n i j,
+  (forall c, In c cs -> length c = n) -> (i < length cs)%nat -> (j < length cs)%nat ->
+  nth j (nth i (cmp_table (fun v u => Qred (scov v u)) cs) []) 0%Q
+    = nth i (nth j (cmp_table (fun v u => Qred (scov v u)) cs) []) 0%Q /\
+  nth j (nth i (cmp_table (fun v u => Qred (hamming v u)) cs) []) 0%Q
+    = nth i (nth j (cmp_table (fun v u => Qred (hamming v u)) cs) []) 0%Q.
+Proof. exact cmp_tables_symmetric. Qed.
+Print Assumptions C18_covariance_and_distance_tables_symmetric.
+
 Example C18_example :
   untie [2; 1; 1]%nat = [3; 1; 2]%nat /\ untie [1; 2; 1]%nat = [1; 3; 2]%nat /\
   untied_rank [2; 3; 1]%nat = [2; 3; 1]%nat /\
